@@ -805,6 +805,19 @@ pub fn check_main(args: &[String]) -> i32 {
         for m in sw.mismatches.iter().take(5) {
             harness_errors.push(format!("simulated console and real binary disagree: {}", m));
         }
+        for (run, what) in sw.not_reproducible.iter().take(3) {
+            if prop == "C19" {
+                let mut scratch = Stats::default();
+                if let Some(mut c) = crate::dispatch::make_case(&prop, seed, *run, &mut scratch) {
+                    let class = "C19:real_binary_not_reproducible".to_owned();
+                    c.expect = Some(Expect { class: class.clone(), message: what.clone(), ..Default::default() });
+                    Stats::bump(&mut stats.violations, &class, 1);
+                    viols.push(VMsg { run: *run, class, message: what.clone(), minimised: false, case: c });
+                }
+            } else {
+                harness_errors.push(format!("run {}: {} (a matter for C19; this check's verdicts cannot be trusted on such a tree)", run, what));
+            }
+        }
         Some(sw)
     } else {
         None
@@ -833,7 +846,8 @@ pub fn check_main(args: &[String]) -> i32 {
         let mut mcase = m.case.clone();
         let mut confirm = String::new();
         if let Some(bin) = crate::fidelity::real_bin() {
-            if mcase.kind != "multi" && crate::fidelity::pipe_expressible(&mcase.scn) && !m.class.contains("worker_died") {
+            if mcase.kind != "multi" && mcase.kind != "env" && !m.class.contains("not_reproducible")
+                && crate::fidelity::pipe_expressible(&mcase.scn) && !m.class.contains("worker_died") {
                 let hist = crate::world::run_cli(&mcase.scn);
                 if let Some(r) = crate::fidelity::real_run(&mcase.scn, &bin, &scratch_dir, "confirm", Duration::from_secs(20)) {
                     match crate::fidelity::compare(&hist, &r) {
@@ -1020,6 +1034,31 @@ pub fn replay_main(args: &[String]) -> i32 {
                 return 2;
             }
         };
+        if case.expect.as_ref().map(|e| e.class.ends_with("real_binary_not_reproducible")).unwrap_or(false) {
+            // executed by the real binary several times: same file, same input
+            let bin = match crate::fidelity::real_bin() {
+                Some(b) => b,
+                None => {
+                    println!("HARNESS-ERROR: SIMCTL_REAL_BIN is not set (use ./check <ID> --replay <file>)");
+                    return 2;
+                }
+            };
+            let dir = format!("{}/sim/target/fidelity-replay", verif_home());
+            let mut outs = Vec::new();
+            for k in 0..12 {
+                if let Some(r) = crate::fidelity::real_run(&case.scn, &bin, &dir, &format!("r{}", k), Duration::from_secs(20)) {
+                    outs.push((r.stdout, r.code));
+                }
+            }
+            let distinct: std::collections::BTreeSet<&(Vec<u8>, Option<i32>)> = outs.iter().collect();
+            println!("{} executions of the real binary on the same file and input gave {} different results", outs.len(), distinct.len());
+            if distinct.len() > 1 {
+                println!("VIOLATION property={} replay={}", case.property, path);
+                return 1;
+            }
+            println!("no violation reproduced");
+            return 0;
+        }
         let ex = crate::dispatch::execute(&case);
         if dump {
             for l in summarise_history(&ex.h, 100000) {
